@@ -98,6 +98,15 @@ class Flow:
                 out.add(("cfn", o["cfn"]))
             elif "cclosure" in o:
                 out.add(("cfn", o["cclosure"]))
+            elif "promoted" in o:
+                pv = self.body.get("promoted", [])
+                i = o["promoted"]
+                if i < len(pv) and pv[i]:
+                    for c in pv[i]:
+                        v = c.get("s", c.get("i", c.get("c")))
+                        out.add(("const", v if not isinstance(v, list) else str(v)))
+                else:
+                    out.add(("const", o.get("c")))
             else:
                 v = o.get("s", o.get("i", o.get("c")))
                 out.add(("const", v if not isinstance(v, list) else str(v)))
